@@ -156,6 +156,9 @@ impl Number {
             if exp < 0 && self.value == Numeric::zero() {
                 return Err("Division by zero".to_string());
             }
+            if self.unit.clone().checked_pow(exp as i64).is_none() {
+                return Err("Exponent is too large".to_string());
+            }
             Ok(self.powi(exp))
         } else if num == one && den < BigInt::from(1i64 << 31) {
             let exp: Option<i64> = den.as_int();
@@ -537,7 +540,7 @@ impl<'a, 'b> Mul<&'b Number> for &'a Number {
     fn mul(self, other: &Number) -> Self::Output {
         Some(Number {
             value: &self.value * &other.value,
-            unit: &self.unit * &other.unit,
+            unit: self.unit.checked_mul(&other.unit)?,
         })
     }
 }
